@@ -69,6 +69,9 @@ func pointGen() *rapid.Generator[rsm2.Point] {
 			}
 			return cv.Add(p0, cv.G())
 		case 0:
+			if rapid.Bool().Draw(t, "negG") {
+				return cv.Neg(cv.G()) // same x coordinate as the base point
+			}
 			return cv.G()
 		case 1:
 			return cv.BaseMul(big.NewInt(int64(rapid.IntRange(2, 40).Draw(t, "j"))))
@@ -230,7 +233,7 @@ func TestC03_IsOnCurve(t *testing.T) {
 	one := big.NewInt(1)
 	hx.Check(t, hx.N(3000, 40000), func(t *rapid.T) {
 		p := pointGen().Draw(t, "P")
-		kind := rapid.SampledFrom([]string{"on", "x+1", "x-1", "y+1", "y-1", "negy", "swap", "random", "zero", "x0"}).Draw(t, "kind")
+		kind := rapid.SampledFrom([]string{"on", "x+1", "x-1", "y+1", "y-1", "negy", "swap", "random", "zero", "x0", "x_edge", "x_edge"}).Draw(t, "kind")
 		x, y := new(big.Int).Set(p.X), new(big.Int).Set(p.Y)
 		switch kind {
 		case "x+1":
@@ -250,6 +253,20 @@ func TestC03_IsOnCurve(t *testing.T) {
 			y = gen.BigBelow(cv.P).Draw(t, "y")
 		case "zero":
 			x, y = new(big.Int), new(big.Int)
+		case "x_edge":
+			// x coordinates at the edges of the field and around the group order (n < p: values in [n, p) are
+			// ordinary field elements), lifted onto the curve when x^3+ax+b is a square
+			base := rapid.SampledFrom([]*big.Int{cv.P, cv.N, new(big.Int).Lsh(one, 255), new(big.Int).Lsh(one, 224), new(big.Int).Rsh(new(big.Int).Add(cv.P, cv.N), 1)}).Draw(t, "base")
+			x = new(big.Int).Add(base, big.NewInt(int64(rapid.IntRange(-40, 40).Draw(t, "delta"))))
+			x.Mod(x, cv.P)
+			rhs := new(big.Int).Exp(x, big.NewInt(3), cv.P)
+			rhs.Add(rhs, new(big.Int).Mul(cv.A, x)).Add(rhs, cv.B).Mod(rhs, cv.P)
+			if r := new(big.Int).ModSqrt(rhs, cv.P); r != nil {
+				y = r
+				if rapid.Bool().Draw(t, "othery") {
+					y = new(big.Int).Sub(cv.P, r)
+				}
+			}
 		case "x0":
 			x = new(big.Int)
 			y = new(big.Int).ModSqrt(cv.B, cv.P) // (0, sqrt b) is on the curve when b is a square
